@@ -272,6 +272,23 @@ static void run_history(const Hist& h)
 	launch(r1, t1, h.n1, 0, "a");
 	for (auto& t : t1)
 		t.join();
+	// every connection established in phase 1 (also by clients that closed at once) is taken by the running accept loop and
+	// passed to serve(): wait for that (expected: milliseconds; 20 s bound), judged below
+	int connected1 = 0, served1 = 0;
+	for (auto& c : r1)
+		connected1 += c.connected;
+	{
+		double ts = vf::now();
+		while (vf::now() - ts < 20) {
+			{
+				std::lock_guard<std::mutex> l(rec->m);
+				served1 = rec->entries;
+			}
+			if (served1 >= connected1)
+				break;
+			usleep(500);
+		}
+	}
 	// phase 2: clients in flight while stop(true) runs in its own thread
 	std::vector<ClientResult> r2;
 	std::vector<std::thread> t2;
@@ -365,8 +382,8 @@ static void run_history(const Hist& h)
 	if (err.empty())
 		for (auto& c : r1) {
 			if (!c.connected) {
-				err = vf::str("client ", c.token, " could not connect to the running server");
-				break;
+				vf::stats().cls("phase1_connect_failed(not judged)");
+				continue; // the property speaks about accepted connections; a refused connect is not judged
 			}
 			if (c.early)
 				continue;
@@ -389,6 +406,9 @@ static void run_history(const Hist& h)
 				err = vf::str("in-flight client ", c.token, " got a wrong echo: ", vf::show(c.got));
 				break;
 			}
+	if (err.empty() && served1 != connected1)
+		err = vf::str(connected1, " connections were established while the server was running, but serve() was entered ", served1,
+		              " times (20 s after the last client finished, before any stop request)");
 	if (err.empty() && rec->bad_handle)
 		err = vf::str(rec->bad_handle, " serve() calls saw an invalid socket handle (on entry or on exit)");
 	if (err.empty() && !hung) {
